@@ -1,4 +1,5 @@
 #![doc = include_str!("../README.md")]
+#![allow(unexpected_cfgs)] // `oh_verif` is set by the verification harness only
 
 #[macro_use]
 extern crate pest_derive;
@@ -11,6 +12,9 @@ pub mod error;
 pub mod extended_time;
 pub mod rules;
 pub mod sorted_vec;
+
+#[cfg(oh_verif)]
+pub mod verif_hooks;
 
 pub use error::{Error, Result};
 pub use extended_time::ExtendedTime;
